@@ -37,16 +37,44 @@ func propDefs() map[string]*PropDef {
 	}
 	m["C10"] = &PropDef{
 		ID:    "C10",
-		Funcs: append(node4Funcs(), node16OtherFuncs()...),
+		Funcs: append(append(node4Funcs(), node16OtherFuncs()...), nodeFuncs(nil)...),
 		Asm:   true,
-		Floor: 20,
+		Lemmas: true,
+		Floor: 1500,
 		Trusted: []string{
 			"amd64 instruction table of govc/asm.go (MOVQ/MOVB/MOVD, PXOR, PSHUFB, VMOVDQU, PCMPEQB, PCMPGTB, PMOVMSKB, SALW, SUBW, ANDW, CMPW/JEQ, TZCNTW, RET; Intel SDM semantics incl. 5-bit SALW count mask and partial-register writes)",
 			"node16_arm64.s is not the code that runs here and is not verified",
 		},
 		DesignRef: "DESIGN.md section 5 C10",
 	}
+	m["C12"] = &PropDef{
+		ID: "C12",
+		// clear-before-release and relink-before-release at every Put site, Zero_c postconditions of
+		// clear(), 'replaced' clauses (a node that leaves the tree is zeroed), and the frames that
+		// confine every node operation to its own node, the relinked slot and fresh pool nodes
+		Funcs: nodeFuncs([]string{`/put@`, `/zero`, `/replaced`, `/frame`, `/merge_link`, `clear/`}),
+		Floor: 150,
+		Trusted: []string{
+			"sync.Pool model: Get returns an object nobody else references, of the pool's class; it is all-zero because every Put site is proved to release only zeroed nodes (put_zero) that the tree no longer links (put_unlinked)",
+		},
+		Assumptions: []string{
+			"glue (frame rule, paper): every node operation writes only its own node, the slot it relinks and nodes fresh from the pool, hence operations on one tree cannot change what another tree reads; the tree-level ownership clause (a tree's nodes are referenced from that tree only) is part of WF and is assumed here",
+			"'a tree emptied by deletions behaves like a new one' is claimed only through Delete resetting root to the zero nodeRef on the last key (tree-level obligation C/Delete/empty_is_initial when registered)",
+		},
+		DesignRef: "DESIGN.md section 5 C12",
+	}
 	return m
+}
+
+func nodeFuncs(include []string) []FuncCheck {
+	var out []FuncCheck
+	for _, f := range []string{"(*node4).clear", "(*node16).clear", "(*node48).clear", "(*node256).clear",
+		"(*nodeRef).findChild", "(*nodeRef).addChild", "(*nodeRef).deleteChild",
+		"(*node4).addChild", "(*node16).addChild", "(*node48).addChild", "(*node256).addChild",
+		"(*node4).deleteChild", "(*node16).deleteChild", "(*node48).deleteChild", "(*node256).deleteChild"} {
+		out = append(out, FuncCheck{Fn: f, Layer: "B", Include: include})
+	}
+	return out
 }
 
 func node16OtherFuncs() []FuncCheck {
